@@ -27,9 +27,23 @@ CHECKS = [
            "DESIGN.md 3.1"),
 ]
 
+CHECKS.append(_check("C02", "mhkernel", "exploration",
+           "Adversarially scheduled accept sites: for every transition of experimental MH/CWMH/PCN/MALA(/ULA guard) and legacy "
+           "MH/CWMH/pCN/MALA the simulator infers the proposal mechanism from the recorded proposal draw and the evaluated "
+           "point, computes the exact MH probability from a pure reference density and serves the accept-site uniform just "
+           "below / just above it; verdicts per transition (accept iff u<alpha, state and caches untouched on reject, caches "
+           "belong to the new state on accept), re-checked after warm-up/tuning, state round trip, checkpoint reload and "
+           "reinitialise; NaN / -inf injected at proposals must never be accepted.",
+           "Trusted: the law of the proposal noise (C05's business), the reference densities of the zoo. Invariance is inferred "
+           "from exact acceptance + untouched state on reject, not measured.",
+           "deterministic simulation: adversarial scheduling of the accept-site uniform against a reference MH model, NaN/-inf fault injection, local per-transition oracles",
+           "DESIGN.md 3.2"))
+
 ENGINES = [
     {"name": "chain", "path": "engines/chain.py", "serves_properties": ["C14"],
      "kind_free_text": "seeded simulator of sampler runs: owns the random tape, the file system, the callback and the target callables; injects splits, checkpoints, crashes, restarts, I/O errors"},
+    {"name": "mhkernel", "path": "engines/mhkernel.py", "serves_properties": ["C02"],
+     "kind_free_text": "adversarial scheduler of the accept-site uniform with a reference MH model per proposal family; NaN/-inf fault injection at proposals"},
 ]
 
 NOT_APPLICABLE = [
